@@ -325,6 +325,32 @@ def oracle_pool(ctx, pool, o, hasher=None, label="sha256"):
     ctx.count("oracle:canonical_classes:%s" % MODE_NAME[o], canon_groups)
 
 
+def no_repeated_items(v, o):
+    """K4 guard (ordered mode): no list / tuple holds two items that are equivalent under the mode"""
+    if isinstance(v, (list, tuple)):
+        cs = [canon_mode(x, o) for x in v]
+        return len(set(cs)) == len(cs) and all(no_repeated_items(x, o) for x in v)
+    if isinstance(v, dict):
+        return all(no_repeated_items(x, o) for x in v.values())
+    return True
+
+
+def corr_spec(ctx, pool, name):
+    """the specification used by the theorems (eqv, through hash_pure and the proved equivalence
+    hash equal <-> eqv inside the guards) and the specification used by the oracle (canon_mode) induce the same
+    partition of the guard-satisfying part of the pool"""
+    cases = []
+    for o in MODES3:
+        vs = [v for v in pool if base.tag_safe_py(v) and not values.contains_alias(v) and not spells_digest(v)
+              and (o[1] or (no_repeated_items(v, o) and base.small_sets_py(v)))]
+        cs = base.classes_of([canon_mode(v, o) for v in vs])
+        cases.append(("run_classes_pure %s [%s]" % (base.coq_opts(o), ";\n ".join(values.to_coq(v) for v in vs)), cs,
+                      {"pool_in_guard": len(vs), "opts": list(o), "check": "canonical-form classes == hash_pure classes"}))
+        ctx.count("spec:in_guard:%s" % MODE_NAME[o], len(vs))
+        ctx.count("spec:classes:%s" % MODE_NAME[o], len(set(cs)))
+    ctx.coq_cases(name, base.HEADER, cases, shard=1, label="spec_partition_pools")
+
+
 def replay_witnesses(ctx):
     from deepdiff import DeepHash
     for s, x in [("NONE", None), ("int:1", 1), ("bool:true", True), ("list:", []), ("float:1.5", 1.5), ("dict:{}", {})]:
@@ -358,6 +384,7 @@ def run(ctx):
     # correspondence: SHA-256 equality pattern == model pattern
     # (strings that spell a serialisation containing a SHA-256 digest collide under SHA-256 only: hasher-specific, left to the oracle)
     base.corr_pattern(ctx, [v for v in pool if not spells_digest(v)], MODES3, "c07_pattern")
+    corr_spec(ctx, pool, "c07_spec")
     # direct oracle: all pairs, three modes, both hashers
     for o in MODES3:
         oracle_pool(ctx, pool, o, None, "sha256")
